@@ -8,7 +8,7 @@ WS = [0x20, 0x09, 0x0a, 0x0b, 0x0c, 0x0d, 0x85, 0xa0, 0x1680, 0x2000, 0x2003, 0x
 MARKS = [0x301, 0x308, 0xff9e, 0x200d, 0x0d4e, 0x0600, 0x0903, 0x20e3, 0xfe0f]
 ASTRAL = [0x10000, 0x1f4a9, 0x1f1e9, 0x1f1ea, 0xfffff, 0x100000, 0x10ffff, 0x1d7ce]
 BOUND = [0x7f, 0x80, 0xe9, 0x100, 0x7ff, 0x800, 0xfff, 0x1000, 0xd7ff, 0xe000, 0xffff]
-CASED = [ord(c) for c in "aAbBzZ"] + [0x130, 0x1e9e, 0xdf, 0x3a3, 0x3c3, 0x3c2, 0x212a, 0x13a0, 0xab70, 0x1c4, 0x1c5, 0x1c6, 0xa7cb, 0x16ea0]
+CASED = [ord(c) for c in "aAbBzZ"] + [0x130, 0x1e9e, 0xdf, 0x3a3, 0x3c3, 0x3c2, 0x212a, 0x13a0, 0xab70, 0x1c4, 0x1c5, 0x1c6]
 DIGITS = [ord(c) for c in "0129"] + [0x660, 0x0967, 0xff11, 0xb2, 0x2460]
 WORDY = [ord('_'), 0x5d0, 0x4e2d, 0x1100, 0x1161, 0x11a8]
 SGR = [0x1b, ord('['), ord('m'), ord(';'), ord('0'), ord('1'), ord('3')]
@@ -47,7 +47,7 @@ def gen_strings(rnd, alpha):
     if shape < 0.35:          # shared prefix/suffix families
         base = word(0, 3); suf = word(0, 2)
         for _ in range(k):
-            s = (base if rnd.random() < 0.6 else []) + word(0 if rnd.random() < 0.15 else 1, 4) + (suf if rnd.random() < 0.4 else [])
+            s = (base if rnd.random() < 0.6 else []) + word(0 if rnd.random() < 0.08 else 1, 4) + (suf if rnd.random() < 0.4 else [])
             out.append(s)
     elif shape < 0.55:        # powers u^k with several k
         u = word(1, 3); p = word(0, 2)
@@ -57,7 +57,7 @@ def gen_strings(rnd, alpha):
     elif shape < 0.7:         # prefix chains
         w = word(2, 6)
         for _ in range(k):
-            out.append(w[:rnd.randint(0, len(w))])
+            out.append(w[:rnd.randint(0 if rnd.random() < 0.2 else 1, len(w))])
     elif shape < 0.8:         # nested periods
         x = word(1, 2); y = word(1, 1); z = word(0, 1)
         inner = x * 2 + y
@@ -67,8 +67,8 @@ def gen_strings(rnd, alpha):
             out.append(word(1, 5))
     else:                     # independent
         for _ in range(k):
-            out.append(word(0 if rnd.random() < 0.1 else 1, 6))
-    if rnd.random() < 0.12:
+            out.append(word(0 if rnd.random() < 0.05 else 1, 6))
+    if rnd.random() < 0.06:
         out.append([])
     return out
 
